@@ -6,14 +6,14 @@
 
 package streamwriter
 
-//@ func (*Writer).Initialize
+//@ func (*Writer).Initialize params (w) returns (err)
 //@   requires w != nil
 //@   ensures  [refusals] (err != nil) == (old(w.Version) == 0 || old(w.SystemID) < 1 || (w.Key != nil && old(w.Version) != V2))
 //@   ensures  [component-default] err == nil ==> (old(w.ComponentID) < 1 ==> w.ComponentID == 1) && (old(w.ComponentID) >= 1 ==> w.ComponentID == old(w.ComponentID))
 //@   canary   err != nil
 //@   modifies w.ComponentID
 
-//@ func (*Writer).Write
+//@ func (*Writer).Write params (w, msg) returns (err)
 //@   let inD = (w.FrameWriter.DialectRW != nil && frame.UfDialectHas(w.FrameWriter.DialectRW, msg.GetID()))
 //@   requires w != nil && frame.SpecWriterReady(w.FrameWriter)
 //@   requires w.Version == V1 || w.Version == V2
@@ -27,7 +27,7 @@ package streamwriter
 //@   ensures  [seq-refused] logLen() == 0 ==> err != nil && w.nextSeqNumber == old(w.nextSeqNumber)
 //@   modifies frame.SpecWriterBuf(w.FrameWriter)[:], w.nextSeqNumber, ghost:log
 
-//@ func (*Writer).writeInner
+//@ func (*Writer).writeInner params (w, fr) returns (err)
 //@   let msg0 = old(frame.SpecFrameMessage(fr))
 //@   let inD  = (w.FrameWriter.DialectRW != nil && frame.UfDialectHas(w.FrameWriter.DialectRW, old(frame.SpecFrameMessage(fr).GetID())))
 //@   requires w != nil && frame.SpecWriterReady(w.FrameWriter) && fr != nil
@@ -49,7 +49,7 @@ package streamwriter
 //@   modifies frame.SpecWriterBuf(w.FrameWriter)[:], w.nextSeqNumber, ghost:log, *fr
 
 // see pkg/frame: the same helper for originated frames
-//@ func encodeMessageInFrame
+//@ func encodeMessageInFrame params (fr, mp)
 //@   inline
 //@   ghostlog (*message.ReadWriter).Write+contract
 //@   requires fr != nil && mp != nil && frame.SpecFrameMessage(fr) != nil && !frame.SpecIsRaw(frame.SpecFrameMessage(fr)) && message.SpecCodecInv(mp)
